@@ -67,12 +67,15 @@ def main():
         args.remove('--thorough')
         tier = 'thorough'
     jobs = []
+    mutants_only = '--mutants-only' in args
+    if mutants_only:
+        args.remove('--mutants-only')
     if args:
         patch = args[0]
         jobs.append((patch, args[1:] or expected(patch)))
     else:
         for patch in sorted(glob.glob(os.path.join(HERE, 'mutants', '*.patch')) +
-                            glob.glob(os.path.join(HERE, 'seeded', '*', 'patch.diff'))):
+                            ([] if mutants_only else glob.glob(os.path.join(HERE, 'seeded', '*', 'patch.diff')))):
             if expected(patch):
                 jobs.append((patch, expected(patch)))
     bad = 0
